@@ -180,6 +180,22 @@ def float_src(ty, d, suffix=True):
 class Printer:
     def __init__(self):
         self.ind = 0
+        self.prog = None      # set by print_program: the function table (module / identifier of every function)
+        self.cur_mod = ""     # the module whose text is being printed ("" = the root module `pkg`)
+
+    def fn_path(self, key):
+        """how the function `key` is written from the module being printed: functions live in the root module or
+        in a sub-module `pkg.<mod>`, and two functions of different modules may have the same identifier"""
+        f = (self.prog or {}).get(key) or {}
+        ident, mod = f.get("ident", key), f.get("mod", "")
+        if mod == self.cur_mod:
+            return ident
+        up = "pkg" if len(key) % 2 else "super"
+        if self.cur_mod == "":
+            return "%s.%s" % (mod, ident) if len(key) % 3 else "pkg.%s.%s" % (mod, ident)
+        if mod == "":
+            return "%s.%s" % (up, ident)
+        return "%s.%s.%s" % (up, mod, ident)
 
     def lit(self, e):
         ty, v = e["ty"], e["v"]
@@ -214,7 +230,7 @@ class Printer:
         if k == "gconst":
             return e["p"]
         if k == "kconst":
-            return e["n"]
+            return e["n"] if self.cur_mod == "" else "pkg." + e["n"]
         if k == "flit":
             assert e["e"] >= 0
             return "%d.0%s" % (e["m"] * (1 << e["e"]), e["ty"] if e.get("sfx", True) else "")
@@ -241,7 +257,7 @@ class Printer:
         if k == "for":
             return "for %s in %s %s" % (e["n"], self.ex(e["e"]), self.blk(e["b"]))
         if k == "call":
-            return "%s(%s)" % (e["f"], ", ".join(self.ex(a) for a in e["args"]))
+            return "%s(%s)" % (self.fn_path(e["f"]), ", ".join(self.ex(a) for a in e["args"]))
         if k == "host":
             f = e["f"]
             if f == "emit":
@@ -324,13 +340,35 @@ def print_program(prog):
     for c in consts:
         line = "const %s: %s = %s;" % (c["n"], roto_ty(c["ty"]), p.ex(c["e"]))
         (tail if c.get("late") else out).append(line)
-    for name, f in prog["fns"].items():
-        params = ", ".join("%s: %s" % (n, roto_ty(t)) for n, t in zip(f["ps"], f["pts"]))
-        if f.get("kind") == "filtermap":
-            out.append("filtermap %s(%s) %s" % (name, params, p.blk(f["b"])))
-        else:
-            rt = "" if f["rt"] == "unit" else " -> %s" % roto_ty(f["rt"])
-            out.append("fn %s(%s)%s %s" % (name, params, rt, p.blk(f["b"])))
+    p.prog = prog["fns"]
+    mods = []
+    for f in prog["fns"].values():
+        if f.get("mod", "") not in mods:
+            mods.append(f.get("mod", ""))
+    mods = [""] + sorted(m for m in mods if m)
+    for mod in mods:
+        p.cur_mod = mod
+        if mod:
+            # a sub-module: its own file (the harness splits the text at these marker lines); the types of the
+            # root module are imported, functions of other modules are called by path
+            (tail if mod == mods[1] else tail).append("//@module %s" % mod)
+            for t in prog.get("types", []):
+                tail.append("import pkg.%s;" % t["n"])
+        dst = out if mod == "" else tail
+        for name, f in prog["fns"].items():
+            if f.get("mod", "") != mod:
+                continue
+            ident = f.get("ident", name)
+            params = ", ".join("%s: %s" % (n, roto_ty(t)) for n, t in zip(f["ps"], f["pts"]))
+            if f.get("kind") == "filtermap":
+                dst.append("filtermap %s(%s) %s" % (ident, params, p.blk(f["b"])))
+            else:
+                rt = "" if f["rt"] == "unit" else " -> %s" % roto_ty(f["rt"])
+                dst.append("fn %s(%s)%s %s" % (ident, params, rt, p.blk(f["b"])))
+        if mod == "":
+            # late constants of the root module come before the first sub-module marker
+            out.extend(tail)
+            tail = []
     return "\n".join(out + tail) + "\n"
 
 
